@@ -190,6 +190,17 @@ def c06_post(merged, tier):
             if nn and _binom_tail(nn, ns, 0.02) < 1e-6:
                 out.append({"oracle": "solved_rate_stratum", "sig": f"solved_rate_stratum:{name}",
                             "detail": {"stratum": name, "N": nn, "not_solved": ns}})
+    # conjunction strata (no iteration envelope: only the not-Solved rate against 2 %)
+    for key in sorted(c):
+        if key.startswith("stratum_") and key.endswith("_N"):
+            name = key[len("stratum_"):-2]
+            if name in C06_CAL:
+                continue
+            ns, nn = c.get(f"stratum_{name}_not_solved", 0), c[key]
+            strata[name] = {"n": nn, "not_solved": ns}
+            if nn and _binom_tail(nn, ns, 0.02) < 1e-6:
+                out.append({"oracle": "solved_rate_stratum", "sig": f"solved_rate_stratum:{name}",
+                            "detail": {"stratum": name, "N": nn, "not_solved": ns}})
     merged["maxima"]["not_solved_rate"] = stats["rate"] or 0.0
     merged["notes"].append("C06 statistics: " + __import__("json").dumps({"overall": stats, "strata": strata}))
     return out
